@@ -260,6 +260,7 @@ package sflow
 //@ func (*SFDecoder).SFDecode
 //@   requires strm(d.reader) && d.reader.Pos == 0
 //@   ensures strm(d.reader) && d.reader.D == old(d.reader.D)
+//@   ensures err == nil ==> result != nil
 //@   ensures [bounded] result != nil ==> 8*(len(result.Samples) + len(result.Counters)) <= len(d.reader.D)
 //@   modifies d.reader.Pos
 //@   loop 1
